@@ -69,6 +69,30 @@ func paths(r *vh.Rng, in grpprog.Inst, q, k *big.Int) map[string][]byte {
 		b.Mod(b, q)
 		out["Mul(a,Mul(b,nil))"] = enc(np().Mul(grpprog.MkScalar(g, a), np().Mul(grpprog.MkScalar(g, b), nil)))
 	}
+	// in place: receiver is the operand
+	func() {
+		c := np().Base()
+		out["c:=Base; c.Mul(k,c)"] = enc(c.Mul(s, c))
+	}()
+	// non-base operand: k.B = (k*u^-1).(u.B) for a small unit u
+	for _, u := range []int64{3, 7} {
+		ui := new(big.Int).ModInverse(big.NewInt(u), q)
+		ku := new(big.Int).Mul(k, ui)
+		ku.Mod(ku, q)
+		P := np().Mul(grpprog.MkScalar(g, ku), nil)
+		out[fmt.Sprintf("Mul(%d, (k/%d).B)", u, u)] = enc(np().Mul(grpprog.MkScalar(g, big.NewInt(u)), P))
+	}
+	// decoded representation added to the computed one: k.B = (k/2).B + decode(encode((k/2).B)) for even k
+	if k.Bit(0) == 0 {
+		h := new(big.Int).Rsh(k, 1)
+		P := np().Mul(grpprog.MkScalar(g, h), nil)
+		if bb, err := P.MarshalBinary(); err == nil {
+			P2 := np()
+			if P2.UnmarshalBinary(bb) == nil {
+				out["P+decode(encode(P))"] = enc(np().Add(P, P2))
+			}
+		}
+	}
 	out["Sub(Mul(k+1,nil),Base)"] = enc(np().Sub(np().Mul(grpprog.MkScalar(g, new(big.Int).Mod(new(big.Int).Add(k, big.NewInt(1)), q)), nil), np().Base()))
 	return out
 }
@@ -114,9 +138,24 @@ func main() {
 		id++
 		its = nil
 	}
+	small := func(i int, r *vh.Rng, q *big.Int) *big.Int {
+		// every run covers some of the small scalars 0..40 (all of them in the thorough tier)
+		if i < nk/2 {
+			return big.NewInt(int64((int(o.Seed)*7 + i*3) % 41))
+		}
+		return r.EdgeScalar(q)
+	}
+	if o.Thorough {
+		small = func(i int, r *vh.Rng, q *big.Int) *big.Int {
+			if i < 41 {
+				return big.NewInt(int64(i))
+			}
+			return r.EdgeScalar(q)
+		}
+	}
 	for i := 0; i < nk; i++ {
 		r := rng.Fork()
-		k := r.EdgeScalar(L)
+		k := small(i, r, L)
 		var ref []byte
 		for _, in := range eds {
 			for path, b := range paths(r, in, L, k) {
@@ -176,7 +215,7 @@ func main() {
 		q := grpprog.Order(in.G)
 		for i := 0; i < nk; i++ {
 			r := rng.Fork()
-			k := r.EdgeScalar(q)
+			k := small(i, r, q)
 			var ref []byte
 			for path, b := range paths(r, in, q, k) {
 				if ref == nil {
@@ -246,6 +285,34 @@ func main() {
 		ctx := map[string]string{"k": k.String(), "k2": k2.String(), "msg": vh.Hex(msg)}
 		cmp("scalar", func(s pairing.Suite) []byte {
 			return enc(s.G1().Scalar().Mul(grpprog.MkScalar(s.G1(), k), grpprog.MkScalar(s.G1(), k2)))
+		}, ctx)
+		if k2.Sign() != 0 {
+			// scalar operations whose receiver is also an operand
+			cmp("scalar-div-receiver-is-divisor", func(s pairing.Suite) []byte {
+				x := grpprog.MkScalar(s.G1(), k2)
+				return enc(x.Div(grpprog.MkScalar(s.G1(), k), x))
+			}, ctx)
+			cmp("scalar-sub-receiver-is-second", func(s pairing.Suite) []byte {
+				x := grpprog.MkScalar(s.G1(), k2)
+				return enc(x.Sub(grpprog.MkScalar(s.G1(), k), x))
+			}, ctx)
+			cmp("scalar-mul-inv-in-place", func(s pairing.Suite) []byte {
+				x := grpprog.MkScalar(s.G1(), k2)
+				x.Inv(x)
+				return enc(x.Mul(x, grpprog.MkScalar(s.G1(), k)))
+			}, ctx)
+		}
+		cmp("G1-sub-receiver-is-second", func(s pairing.Suite) []byte {
+			x := s.G1().Point().Mul(grpprog.MkScalar(s.G1(), k2), nil)
+			return enc(x.Sub(s.G1().Point().Mul(grpprog.MkScalar(s.G1(), k), nil), x))
+		}, ctx)
+		cmp("G2-add-receiver-is-second", func(s pairing.Suite) []byte {
+			x := s.G2().Point().Mul(grpprog.MkScalar(s.G2(), k2), nil)
+			return enc(x.Add(s.G2().Point().Mul(grpprog.MkScalar(s.G2(), k), nil), x))
+		}, ctx)
+		cmp("GT-mul-in-place", func(s pairing.Suite) []byte {
+			x := s.Pair(s.G1().Point().Base(), s.G2().Point().Base())
+			return enc(x.Mul(grpprog.MkScalar(s.G1(), k), x))
 		}, ctx)
 		cmp("G1", func(s pairing.Suite) []byte { return enc(s.G1().Point().Mul(grpprog.MkScalar(s.G1(), k), nil)) }, ctx)
 		cmp("G2", func(s pairing.Suite) []byte { return enc(s.G2().Point().Mul(grpprog.MkScalar(s.G2(), k), nil)) }, ctx)
